@@ -647,3 +647,53 @@ func runNumberShapes(ctx *core.Ctx, id string, f byteFlags) {
 		}
 	})
 }
+
+// runRunShapes: RUNS of one byte class inside and around tokens - a scanner or copier that hops over several
+// bytes at once is only wrong for runs of at least its hop width. (a) a run of N blanks (N = 1, 2, 7, 8, 9,
+// 15, 16, 17, 33, 64; space, tab, line feed) inserted at EVERY byte position of a dozen short texts - between
+// tokens it is harmless, inside a literal, a number, a string or an escape it changes validity or value;
+// (b) runs of N digits (N = 1 .. 20, 31 .. 33) after "-0", "0", "", "1.", "1e", "1e+" and after \u escapes
+// inside strings. Codec functions and entry points against the reference.
+func runRunShapes(ctx *core.Ctx, id string, f byteFlags) {
+	seen := map[string]bool{}
+	var texts []string
+	add := func(t string) {
+		if !seen[t] {
+			seen[t] = true
+			texts = append(texts, t)
+		}
+	}
+	bases := []string{` 1 2`, ` true`, `{ "a": true }`, `[ -1 , 2.5e3 ]`, ` "a b"`, `[ "Ab" ]`, ` null`, `{ "k" : [ false ] }`, ` -0.5`, `[ 1 ]`, `{"a":1}`, ` "x\n"`}
+	for _, b := range bases {
+		for pos := 0; pos <= len(b); pos++ {
+			for _, n := range []int{1, 2, 7, 8, 9, 15, 16, 17, 33, 64} {
+				for _, ch := range []string{" ", "\t", "\n"} {
+					add(b[:pos] + strings.Repeat(ch, n) + b[pos:])
+				}
+			}
+		}
+	}
+	digits := "12345678901234567890123456789012345"
+	for _, n := range []int{1, 2, 3, 4, 5, 6, 7, 8, 9, 10, 11, 12, 13, 14, 15, 16, 17, 18, 19, 20, 31, 32, 33} {
+		d := digits[:n]
+		for _, pre := range []string{"-0", "0", "", "-", "1.", "1e", "1e+", "0.", "-0.", "1E-"} {
+			for _, wrap := range [][2]string{{"[", "]"}, {`{"n":`, `}`}, {"", ""}} {
+				add(wrap[0] + pre + d + wrap[1])
+			}
+		}
+		for _, esc := range []string{`1`, `ሴ`, `é`, `😀`, `\n`, `\u003`, `\u`} {
+			add(`["` + esc + d + `"]`)
+			add(`{"k` + esc + d + `":"` + d + esc + `"}`)
+		}
+	}
+	ctx.Count("run_shapes", int64(len(texts)))
+	m0 := &mergeRun{id: id, legacy: f.legacy, ctx: ctx}
+	ctx.Parallel(len(texts), func(w *core.Worker, i int) {
+		m := *m0
+		m.w = w
+		m.judgeBytes(texts[i], f)
+		if !f.legacy && f.reject {
+			m.judgeCodec([]byte(texts[i]))
+		}
+	})
+}
